@@ -57,7 +57,7 @@ class NormActivation(torch.nn.Module):
             epsilon = 1e-8
         elif epsilon is not None and not normalize:
             raise ValueError("epsilon and normalize = False don't make sense together")
-        elif not epsilon > 0:
+        elif epsilon is not None and not epsilon > 0:
             raise ValueError(f"epsilon {epsilon} is invalid, must be strictly positive.")
         self.epsilon = epsilon
         if self.epsilon is not None:
